@@ -9,7 +9,9 @@ HARNESS="${VERIF_HARNESS:-$(cd "$(dirname "$0")/../harness" && pwd)}"
 CRATE="$HARNESS/vmiri-vm"
 export CARGO_NET_OFFLINE=true
 export CARGO_TARGET_DIR="$CRATE/target"
-if [ "$TIER" = "thorough" ]; then SHARDS=16; PER=16; else SHARDS=8; PER=4; fi
+. "$(dirname "$0")/lib.sh"
+# per shard: CPU seconds (the limit that is meant to fire on a looping workload) and the wall-clock last resort
+if [ "$TIER" = "thorough" ]; then SHARDS=16; PER=16; CPU_S=3600; WALL_S=28800; else SHARDS=8; PER=4; CPU_S=1500; WALL_S=12000; fi
 LOGDIR="$OUT/miri-vm-logs"; mkdir -p "$LOGDIR"
 emit() { # stage evaluations violations_json inconclusive_json observed_json
 python3 - "$OUT/miri-vm.json" "$@" <<'PY'
@@ -29,10 +31,10 @@ fi
 run_shard() { # model shard
   local model="$1" k="$2" flags="-Zmiri-disable-isolation"
   [ "$model" = "tree" ] && flags="$flags -Zmiri-tree-borrows"
-  MIRIFLAGS="$flags" timeout 1500 cargo +nightly miri run --offline -- $((k*PER)) "$PER" >"$LOGDIR/$model-$k.log" 2>&1
+  MIRIFLAGS="$flags" budget "$CPU_S" "$WALL_S" cargo +nightly miri run --offline -- $((k*PER)) "$PER" >"$LOGDIR/$model-$k.log" 2>&1
   echo "exit=$?" >>"$LOGDIR/$model-$k.log"
 }
-export -f run_shard; export PER LOGDIR CRATE
+export -f run_shard budget; export PER LOGDIR CRATE CPU_S WALL_S
 # cargo serialises on the target-dir lock only while checking freshness; runs proceed in parallel
 for model in stacked tree; do
   for k in $(seq 0 $((SHARDS-1))); do echo "$model $k"; done
